@@ -157,7 +157,7 @@ theorem refeed_spec {P M} (facts : MainFacts) (l r : SideCfg) (pipeline : P) (ma
       | ints xs => rw [hd] at hp; cases hp
       | other => rw [hd] at hp; cases hp
   have hleft : (mainSaved facts l r pipeline margins).left = l := rfl
-  simp only [specRefeed, refeedInput, hsaved, hleft, checkInput_asUser, hacc, if_true]
+  simp only [specRefeed, specRefeedObs, refeedInput, hsaved, hleft, checkInput_asUser, hacc, if_true]
   simp [mainSaved, hm]
 
 /-- **The saved file of every integer-disparity run is refused today** (F13): when `main` writes the
